@@ -1,5 +1,5 @@
-//! Manifest damage: `ManifestIterator` over the damaged file + `Manifest::open` on a directory
-//! holding (a fresh copy of) it.
+//! Manifest damage: `ManifestIterator` over the damaged file + `Manifest::verify` and
+//! `Manifest::open` on a directory holding (a fresh copy of) it.
 
 use std::collections::{BTreeMap, BTreeSet};
 use std::path::{Path, PathBuf};
@@ -33,7 +33,7 @@ fn info_candidates() -> impl Iterator<Item = char> {
     (0x20u8..0x7f).map(|b| b as char).filter(|c| *c != '+' && *c != '-')
 }
 
-fn to_edit(t: &Txn) -> mani::Edit {
+pub fn to_edit(t: &Txn) -> mani::Edit {
     let mut e = mani::Edit::default();
     for s in t.add.iter() {
         e.add(s).expect("add");
@@ -55,7 +55,7 @@ fn from_edit(e: &mani::Edit) -> Option<Txn> {
 }
 
 /// An independent parser of the text format (pristine files only).
-fn parse_pristine(b: &[u8]) -> Result<Vec<Txn>, String> {
+pub fn parse_pristine(b: &[u8]) -> Result<Vec<Txn>, String> {
     let text = std::str::from_utf8(b).map_err(|_| "not utf-8")?;
     let mut out = vec![];
     let mut cur = Txn::default();
@@ -97,7 +97,7 @@ fn parse_pristine(b: &[u8]) -> Result<Vec<Txn>, String> {
 
 pub type State = (BTreeSet<String>, BTreeMap<char, String>);
 
-fn fold(txns: &[Txn]) -> State {
+pub fn fold(txns: &[Txn]) -> State {
     let mut strs = BTreeSet::new();
     let mut info = BTreeMap::new();
     for t in txns {
@@ -120,22 +120,32 @@ pub struct ManiObs {
     /// None = an edit the accessors could not fully enumerate
     pub edits: Vec<Option<Txn>>,
     pub err: Option<String>,
+    /// the errors `Manifest::verify` reports for the directory (before `open` rewrites it)
+    pub verify: Option<Vec<String>>,
     pub open: Option<Result<(State, u64), String>>,
 }
 
-fn short(e: &handled::SError) -> String {
+pub fn short(e: &handled::SError) -> String {
     vcore::truncate(&format!("{e:?}").replace('\n', " "), 240)
 }
 
 /// `file` holds the bytes to examine; `dir` is a scratch directory that is wiped and receives a
 /// fresh copy as `dir/MANIFEST` (Manifest::open rewrites the file).
 pub fn observe(bytes: &[u8], dir: &Path, cap: usize) -> ManiObs {
-    let mut o = ManiObs::default();
     let _ = std::fs::remove_dir_all(dir);
     std::fs::create_dir_all(dir).expect("mani dir");
     let path = dir.join("MANIFEST");
     std::fs::write(&path, bytes).expect("write manifest");
-    match mani::ManifestIterator::open(&path) {
+    let o = observe_dir(dir, &path, cap);
+    let _ = std::fs::remove_dir_all(dir);
+    o
+}
+
+/// Observe a prepared manifest directory: iterate the fragment at `path`, then `Manifest::verify`
+/// (read-only), then `Manifest::open` (which rolls the live file over, so it comes last).
+pub fn observe_dir(dir: &Path, path: &Path, cap: usize) -> ManiObs {
+    let mut o = ManiObs::default();
+    match mani::ManifestIterator::open(path) {
         Ok(it) => {
             for item in it {
                 match item {
@@ -153,6 +163,7 @@ pub fn observe(bytes: &[u8], dir: &Path, cap: usize) -> ManiObs {
         }
         Err(e) => o.iter_open_err = Some(short(&e)),
     }
+    o.verify = Some(mani::Manifest::verify(mani::ManifestOptions::default(), dir).map(|e| short(&e)).collect());
     o.open = Some(match mani::Manifest::open(mani::ManifestOptions::default(), dir) {
         Ok(m) => {
             let strs: BTreeSet<String> = m.strs().map(|s| s.to_string()).collect();
@@ -161,7 +172,6 @@ pub fn observe(bytes: &[u8], dir: &Path, cap: usize) -> ManiObs {
         }
         Err(e) => Err(short(&e)),
     });
-    let _ = std::fs::remove_dir_all(dir);
     o
 }
 
@@ -173,7 +183,7 @@ pub struct ManiPristine {
     pub items: BTreeSet<String>,
 }
 
-fn items_of(t: &Txn) -> Vec<String> {
+pub fn items_of(t: &Txn) -> Vec<String> {
     let mut v = vec![];
     v.extend(t.add.iter().map(|s| format!("+{s}")));
     v.extend(t.rm.iter().map(|s| format!("-{s}")));
@@ -196,6 +206,11 @@ fn payload() -> impl Strategy<Value = String> {
     ]
 }
 
+pub fn txn_strategy() -> impl Strategy<Value = Txn> {
+    let info_key = prop_oneof![Just('I'), Just('O'), Just('D'), Just('L'), Just('M'), Just('x'), Just('7')];
+    (prop::collection::btree_set(payload(), 0..5), prop::collection::btree_set(payload(), 0..2), prop::collection::btree_map(info_key, payload(), 0..3)).prop_map(|(add, rm, info)| Txn { add, rm, info })
+}
+
 impl Target for ManiDamage {
     type Spec = ManiSpec;
     type Pristine = ManiPristine;
@@ -210,9 +225,7 @@ impl Target for ManiDamage {
         tier.pick(30, 50)
     }
     fn spec_strategy(&self, _: Tier) -> BoxedStrategy<ManiSpec> {
-        let info_key = prop_oneof![Just('I'), Just('O'), Just('D'), Just('L'), Just('M'), Just('x'), Just('7')];
-        let txn = (prop::collection::btree_set(payload(), 0..5), prop::collection::btree_set(payload(), 0..2), prop::collection::btree_map(info_key, payload(), 0..3)).prop_map(|(add, rm, info)| Txn { add, rm, info });
-        prop::collection::vec(txn, 1..7).prop_map(|txns| ManiSpec { txns }).boxed()
+        prop::collection::vec(txn_strategy(), 1..7).prop_map(|txns| ManiSpec { txns }).boxed()
     }
     fn plan_strategy(&self) -> BoxedStrategy<Vec<Dmg>> {
         damage::plan_strategy(formats::MANI_CLASSES.iter().map(|c| (*c, if *c == "payload" || *c == "crc" { 2 } else { 1 })).collect())
@@ -239,7 +252,11 @@ impl Target for ManiDamage {
             panic!("pristine manifest does not carry the applied state");
         }
         let obs = observe(&bytes, &dir.join("d"), edits.len() + 2);
-        let ok = obs.iter_open_err.is_none() && obs.err.is_none() && obs.edits.iter().cloned().collect::<Option<Vec<Txn>>>().as_ref() == Some(&edits) && matches!(&obs.open, Some(Ok((st, _))) if *st == fold(&edits));
+        let ok = obs.iter_open_err.is_none()
+            && obs.err.is_none()
+            && obs.edits.iter().cloned().collect::<Option<Vec<Txn>>>().as_ref() == Some(&edits)
+            && matches!(&obs.open, Some(Ok((st, _))) if *st == fold(&edits))
+            && obs.verify.as_ref().map(|v| v.is_empty()).unwrap_or(false);
         if !ok {
             panic!("pristine manifest does not read back as written: {:?}", obs);
         }
@@ -274,7 +291,7 @@ impl Target for ManiDamage {
         let got = observe(&damaged, &p.dir.join("d"), 4 * p.edits.len() + 8);
         let peak = alloc::disarm();
         let kinds: Vec<&str> = applied.iter().filter(|a| a.effective).map(|a| a.kind).collect();
-        let (labels, failure) = judge(p, &got, &kinds, &what);
+        let (labels, failure) = judge(&p.edits, &p.items, &got, &kinds, &what, true);
         for l in labels {
             o.label(l);
         }
@@ -288,7 +305,15 @@ impl Target for ManiDamage {
     }
 }
 
-pub fn judge(p: &ManiPristine, got: &ManiObs, kinds: &[&str], what: &str) -> (Vec<String>, Option<Failure>) {
+/// `edits` / `items`: what the pristine version of the examined fragment holds.  `open_reads_it`:
+/// the examined fragment is the live MANIFEST, so `Manifest::open` must agree with its iteration
+/// (for a backup fragment the caller judges `open` itself).
+pub fn judge(edits: &[Txn], items: &BTreeSet<String>, got: &ManiObs, kinds: &[&str], what: &str, open_reads_it: bool) -> (Vec<String>, Option<Failure>) {
+    struct P<'a> {
+        edits: &'a [Txn],
+        items: &'a BTreeSet<String>,
+    }
+    let p = P { edits, items };
     let mut labels = vec![];
     let mut failure: Option<Failure> = None;
     let mut fail = |sig: &str, msg: String| {
@@ -300,6 +325,7 @@ pub fn judge(p: &ManiPristine, got: &ManiObs, kinds: &[&str], what: &str) -> (Ve
     let common = p.edits.iter().zip(got.edits.iter()).take_while(|(a, b)| Some(*a) == b.as_ref()).count();
     let extra = &got.edits[common..];
     let mut replay = false;
+    let mut copied = false;
     if !extra.is_empty() {
         let from_pristine_lines = extra.iter().all(|e| match e {
             Some(t) => items_of(t).iter().all(|i| p.items.contains(i)),
@@ -307,15 +333,41 @@ pub fn judge(p: &ManiPristine, got: &ManiObs, kinds: &[&str], what: &str) -> (Ve
         });
         if kinds.contains(&"append-slice") && from_pristine_lines {
             replay = true;
+        } else if kinds.contains(&"run-copy") && from_pristine_lines {
+            // a copied run that consists of whole CRC-valid lines (or a separator) of the same
+            // file, landing on a line boundary: well-formed content, like an appended slice
+            replay = true;
+            copied = true;
         } else {
             fail("mani:different-data", format!("edit #{common} read from the damaged manifest is {:?} but the pristine manifest holds {:?} there", extra[0], p.edits.get(common)));
         }
     }
-    if !iter_failed && common < p.edits.len() && !kinds.contains(&"truncate") {
+    if !iter_failed && common < p.edits.len() && !kinds.contains(&"truncate") && !copied {
         fail("mani:silently-short", format!("iteration ended WITHOUT error after {common} of {} edits although nothing was truncated", p.edits.len()));
+    }
+    // Manifest::verify reads every fragment with the same reader: it must report at least one
+    // error when the iteration of the examined fragment fails, and exactly what it reports for
+    // the pristine directory (nothing) when the fragment still holds the pristine edits
+    let harmless = !iter_failed && got.edits.len() == p.edits.len() && common == p.edits.len();
+    if let Some(errs) = &got.verify {
+        if iter_failed && errs.is_empty() {
+            fail("mani:verify-ignores-corruption", "Manifest::verify reports nothing for a directory holding a fragment whose iteration fails".into());
+        } else if harmless && !errs.is_empty() {
+            fail("mani:verify-error-on-unchanged-content", format!("Manifest::verify reports {} although the damaged fragment still reads as the pristine edits", vcore::truncate(&errs.join("; "), 300)));
+        }
+        labels.push(
+            match (iter_failed, harmless, errs.is_empty()) {
+                (true, _, _) => "verify:reports-the-unreadable-fragment",
+                (false, true, _) => "verify:silent(content-unchanged)",
+                (false, false, true) => "verify:silent(clean-prefix-or-replay)",
+                (false, false, false) => "verify:reports-chain-mismatch(clean-prefix-or-replay)",
+            }
+            .to_string(),
+        );
     }
     // Manifest::open must agree with the iterator over the same bytes
     match (&got.open, iter_failed) {
+        _ if !open_reads_it => {}
         (Some(Ok(_)), true) => fail("mani:open-ignores-corruption", "Manifest::open succeeded on a file whose iteration fails".into()),
         (Some(Err(e)), false) => fail("mani:open-error-on-clean-file", format!("Manifest::open failed ({e}) on a file whose iteration ends cleanly")),
         (Some(Ok((state, size))), false) => {
@@ -331,6 +383,7 @@ pub fn judge(p: &ManiPristine, got: &ManiObs, kinds: &[&str], what: &str) -> (Ve
     }
     labels.push(
         match (iter_failed, common, replay) {
+            (_, _, true) if copied => "outcome:replayed-whole-lines(copied-run-is-wellformed)",
             (_, _, true) => "outcome:replayed-whole-lines(appended-slice-is-wellformed)",
             (true, 0, _) => "outcome:detected-before-any-data",
             (true, c, _) if c < p.edits.len() => "outcome:detected-after-genuine-prefix",
